@@ -337,6 +337,10 @@ def cases(ctx):
         p0 = rng.randrange(0, n // 4 - 11)
         hx = hx[:-6] + hx[p0:p0 + 6]
         yield "exact", {"n": n, "x": hx, "legacy": (k % 10 == 0), "case": "lower" if k % 3 == 0 else "upper", "echo": 1}
+    # frames whose running remainder becomes a leading one followed by 45+ ones half-way through the division
+    for k in range(ctx.share(4000 if quick else 60000)):
+        n = rng.choice((56, 112))
+        yield "exact", {"n": n, "x": "%X" % bits.frame_with_run_remainder(rng, n), "legacy": (k % 10 == 0), "case": ("upper", "lower", "mixed")[k % 3]}
     # strings with internal structure: periodic, two equal halves, mirrored
     for k in range(ctx.share(4000 if quick else 40000)):
         L = rng.choice((14, 28))
